@@ -61,19 +61,22 @@ CallerAtomic(wire, cl) ==
             THEN "unit-interleaved-with-another-caller"
        ELSE ""
 
+OkExc(cl) == {"none", "CancelledError"} \cup (IF cl.badclose = 1 THEN {"RuntimeError"} ELSE {})
+
 TxnAtomic(r) ==
     LET bad == {k \in 1..Len(r.callers) : r.callers[k].exc = "none" /\ CallerAtomic(r.wire, r.callers[k]) # ""}
         unknown == {k \in 1..Len(r.wire) : \A j \in 1..Len(r.callers) : r.callers[j].name # r.wire[k].task}
     IN IF r.info.loop_exc # "none" THEN Fail("event-loop:" \o r.info.loop_exc, 0)
        ELSE IF r.out.hung # <<>> THEN Fail("caller-never-completed:" \o r.out.hung[1], 0)
        ELSE IF \E k \in 1..Len(r.callers) : r.callers[k].done # 1 THEN Fail("caller-not-done", 0)
-       ELSE IF \E k \in 1..Len(r.callers) : r.callers[k].exc \notin {"none", "CancelledError"}
-            THEN Fail("caller-raised:" \o r.callers[CHOOSE k \in 1..Len(r.callers) : r.callers[k].exc \notin {"none", "CancelledError"}].exc, 0)
+       \* (a cancelled sequence whose own clean-up misbehaves at close() ends with RuntimeError; everybody else is judged as usual)
+       ELSE IF \E k \in 1..Len(r.callers) : r.callers[k].exc \notin OkExc(r.callers[k])
+            THEN Fail("caller-raised:" \o r.callers[CHOOSE k \in 1..Len(r.callers) : r.callers[k].exc \notin OkExc(r.callers[k])].exc, 0)
        ELSE IF bad # {} THEN LET k == CHOOSE x \in bad : TRUE IN Fail(CallerAtomic(r.wire, r.callers[k]) \o ":" \o r.callers[k].name, k)
        ELSE IF unknown # {} THEN Fail("frame-from-nobody", CHOOSE k \in unknown : TRUE)
        ELSE IF \E k \in 1..Len(r.callers) : r.callers[k].aux_ok # 1 THEN Fail("sleep-or-progress-item-mishandled", 0)
        ELSE IF r.lock_free # 1 THEN Fail("transaction-lock-still-held", 0)
-       ELSE IF \E k \in 1..Len(r.callers) : r.callers[k].mode = "sequence" /\ r.callers[k].closed # 1
+       ELSE IF \E k \in 1..Len(r.callers) : r.callers[k].mode = "sequence" /\ r.callers[k].closed # 1 /\ r.callers[k].badclose # 1
             THEN Fail("sequence-not-closed", 0)
        ELSE Pass
 
